@@ -70,8 +70,6 @@ def main():
                 checks = props if '--all-checks' in flags else \
                     meta['property'].split(',')
                 for pid in checks:
-                    if pid == 'C19':
-                        continue
                     for seed in seeds:
                         r = subprocess.run(
                             [os.path.join(VERIF, 'check'), pid, tier],
